@@ -3,6 +3,6 @@
    Coq inductive datatypes.  No Extract Constant / Extract Inductive of our own. *)
 Require Extraction.
 Require Import ExtrOcamlBasic.
-From Sim Require Import Map Variant Current Kernel KScript.
+From Sim Require Import Map Variant Current Kernel KScript Queue Net Sim.
 Extraction Language OCaml.
-Extraction "simmodel.ml" current pinned run_kscript visible.
+Extraction "simmodel.ml" current pinned run_kscript visible run_script svisible pat q_new.
